@@ -178,8 +178,8 @@ var (
 	kindsAccept   = map[string]bool{"accepts-dead": true, "rejects-live": true, "eof-accept": true, "eof-reject": true, "early-return": true, "stack-desync": true}
 	kindsEvents   = map[string]bool{"event-desync": true}
 	kindsPanic    = map[string]bool{"panic": true, "no-arm": true, "no-progress": true}
-	kindsStale    = map[string]bool{"use-before-def": true}
-	kindsPosition = map[string]bool{"err-position": true, "eof-position": true}
+	kindsStale    = map[string]bool{"use-before-def": true, "stale-scratch": true}
+	kindsPosition = map[string]bool{"err-position": true, "eof-position": true, "newline-unrecorded": true}
 )
 
 // applyParseResults turns exploration results into findings/obligations.
@@ -331,7 +331,7 @@ func ruleC03(prog *Program, rep *Report) {
 	rep.Explain("C03 decides agreement of the strict-JSON front-ends as acceptors and event sources under every chunking, in single- and multi-document mode (the multi-document reference is: a sequence of JSON values optionally separated by whitespace; a top-level number ends at whitespace or end of input), and the structural part of sen.Parser/sen.Tokenizer agreement (no silently skipped action code). Not covered: equality of the value trees (values are Top in the abstract domain), alt.Builder reconstruction, Simplify, and JSON-subset-of-SEN acceptance (the SEN helpers' mode depends on the build stack, which the domain does not model).")
 	rep.Assumptions = append(rep.Assumptions, "Go semantics of the interpreted statement forms", "callbacks and handler methods do not modify the parser", "a type switch over a call result lists every dynamic type the callee returns")
 	results := exploreFrontEnds(prog, jsonFrontEnds, []bool{false, true}, false)
-	applyParseResults(rep, results, union(kindsAccept, kindsEvents), "A-agree", 18)
+	applyParseResults(rep, results, union(kindsAccept, kindsEvents, map[string]bool{"stale-scratch": true}), "A-agree", 18)
 	sres := exploreFrontEnds(prog, senFrontEnds, []bool{false, true}, true)
 	applyParseResults(rep, sres, map[string]bool{"no-arm": true}, "A-noarm", 12)
 	ruleReaderLoops(prog, rep)
